@@ -58,7 +58,7 @@ For each refactoring i in 1..5:
   2. run the test suite - it must pass:
         cd {wt} && PYTHONPATH={wt} /venv/bin/python -m pytest -q -p no:cacheprovider --timeout=900 -q tests 2>&1 | tail -5
      (first confirm `PYTHONPATH={wt} /venv/bin/python -c "import copulas; print(copulas.__file__)"` prints a path under {wt}; the baseline has 294 passing tests; a few unseeded statistical tests are flaky - re-run on the unmodified tree before blaming your change);
-  3. write {wt}/_out/r<i>/equiv.py : a deterministic program (fixed seeds, < 60 s) that exercises the refactored functions on a variety of inputs (including edge cases and error paths) and prints results with full precision (repr / .tolist()); its output must be byte-identical on the unmodified tree and on the refactored tree - verify this by running it on both (use `git stash` / `git stash pop` or compare against a saved output);
+  3. write {wt}/_out/r<i>/equiv.py : a deterministic program (fixed seeds, < 60 s) that exercises the refactored functions on a variety of inputs (including edge cases and error paths) and prints results with full precision (repr / .tolist()); its output must be byte-identical on the unmodified tree and on the refactored tree - verify this by running it on both (save your diff with `git diff > file`, `git checkout -- copulas`, run, `git apply file`; never use `git stash`: it is shared between worktrees);
   4. `git -C {wt} diff > _out/r<i>/patch.diff` (ONLY changes under copulas/, applying cleanly with `git apply` on a clean checkout);
   5. write _out/r<i>/meta.json : {{"area": "{area}", "summary": "<what was refactored and how>", "files": [...], "tests_passed": true, "equiv_output_identical": true}};
   6. `git checkout -- copulas` (and remove new untracked files under copulas/) to restore the tree before the next refactoring.
